@@ -97,6 +97,25 @@ def multiCmd (loaders queries : List Sexp) : Sexp :=
     | .list [.atom "open", .bytes p] => optBytes (m.open_ p)
     | _ => .atom "bad-op")
 
+/-- a Multi over mutable in-memory loaders: `(set i path content)`, `(del i path)` act on loader `i`,
+    `(exists path)` / `(open path)` query the stack as it is at that moment -/
+def multiHistoryCmd (nl : Nat) (ops : List Sexp) : Sexp :=
+  let rec go (ls : List Loaders.InMem) (acc : Array Sexp) : List Sexp → Array Sexp
+    | [] => acc
+    | op :: rest =>
+      let m := Loaders.multi (ls.map (·.toLoader))
+      match op with
+      | .list [.atom "set", .atom i, .bytes p, .bytes c] =>
+        let k := i.toNat?.getD 0
+        go (ls.mapIdx fun j l => if j == k then l.set p c else l) (acc.push (.atom "ok")) rest
+      | .list [.atom "del", .atom i, .bytes p] =>
+        let k := i.toNat?.getD 0
+        go (ls.mapIdx fun j l => if j == k then l.delete p else l) (acc.push (.atom "ok")) rest
+      | .list [.atom "exists", .bytes p] => go ls (acc.push (Sexp.ofBool (m.exists_ p))) rest
+      | .list [.atom "open", .bytes p] => go ls (acc.push (optBytes (m.open_ p))) rest
+      | _ => go ls (acc.push (.atom "bad-op")) rest
+  .list (go (List.replicate nl {}) #[] ops).toList
+
 def evSexp : SetM.Ev → Sexp
   | .exists_ p => .list [.atom "E", .bytes p]
   | .open_ p => .list [.atom "O", .bytes p]
@@ -246,6 +265,7 @@ def dispatch : Sexp → Sexp
   | .list (.atom "setm" :: .atom dev :: .list (.atom "exts" :: exts) :: ops) => setmCmd (dev == "true") (bytesList exts) ops
   | .list (.atom "inmem" :: ops) => inmemCmd ops
   | .list [.atom "multi", .list loaders, .list queries] => multiCmd loaders queries
+  | .list (.atom "multi-history" :: .atom nl :: ops) => multiHistoryCmd (nl.toNat?.getD 1) ops
   | .list [.atom "exec", store, entry, exts, esc, globals, vars, data, fuel] =>
     execDispatch store entry exts esc globals vars data fuel
   | .list [.atom "lex", .bytes l, .bytes r, .bytes lc, .bytes rc, .bytes input] => lexCmd l r lc rc input
